@@ -2,6 +2,7 @@ package metadata
 
 import (
 	"fmt"
+	"strconv"
 	"strings"
 
 	"github.com/llir/llvm/internal/enc"
@@ -15,13 +16,20 @@ func diFlagsString(flags enum.DIFlag) string {
 		return flags.String()
 	}
 	var ss []string
+	// Bits of flags without flag name, printed as an integer.
+	rest := flags
 	if flag := flags & 0x3; flag != 0 {
 		ss = append(ss, flag.String())
+		rest &^= flag
 	}
 	for mask := enum.DIFlagFirst; mask <= enum.DIFlagLast; mask <<= 1 {
-		if flags&mask != 0 {
-			ss = append(ss, mask.String())
+		if name := mask.String(); flags&mask != 0 && !strings.HasPrefix(name, "DIFlag(") {
+			ss = append(ss, name)
+			rest &^= mask
 		}
+	}
+	if rest != 0 {
+		ss = append(ss, strconv.FormatUint(uint64(rest), 10))
 	}
 	return strings.Join(ss, " | ")
 }
@@ -33,10 +41,16 @@ func dispFlagsString(flags enum.DISPFlag) string {
 		return flags.String()
 	}
 	var ss []string
+	// Bits of flags without flag name, printed as an integer.
+	rest := flags
 	for mask := enum.DISPFlagFirst; mask <= enum.DISPFlagLast; mask <<= 1 {
-		if flags&mask != 0 {
-			ss = append(ss, mask.String())
+		if name := mask.String(); flags&mask != 0 && !strings.HasPrefix(name, "DISPFlag(") {
+			ss = append(ss, name)
+			rest &^= mask
 		}
+	}
+	if rest != 0 {
+		ss = append(ss, strconv.FormatUint(uint64(rest), 10))
 	}
 	return strings.Join(ss, " | ")
 }
